@@ -1,8 +1,8 @@
 #!/bin/sh
 # Re-check every compiled property file with Coq's independent checker and list the axioms of everything it loads.
-# Usage: tools/coqchk.sh   (after ./setup.sh; 1-5 minutes; output in evidence/coqchk.txt)
+# Usage: tools/coqchk.sh   (after ./setup.sh; 1-5 minutes; output in audit/coqchk.txt)
 cd "$(dirname "$0")/../_build/coq" || exit 2
 mods=$(ls Props/*.vo | sed 's#/#.#; s#\.vo$##; s#^#Deal.#')
-timeout 3000 coqchk -silent -o -R . Deal $mods > ../../evidence/coqchk.txt 2>&1
-echo "coqchk exit status: $?" >> ../../evidence/coqchk.txt
-tail -15 ../../evidence/coqchk.txt
+timeout 3000 coqchk -silent -o -R . Deal $mods > ../../audit/coqchk.txt 2>&1
+echo "coqchk exit status: $?" >> ../../audit/coqchk.txt
+tail -15 ../../audit/coqchk.txt
